@@ -51,24 +51,7 @@ def run(ctx: Ctx):
     vocab = funcnames | logical | {"ScalarParam"}
 
     ctx.rule("R11.a", "writer vocabulary is a subset of the reader's: every producible class is printed by a vetted re-parsable method or by a gotranx method that only emits heads the grammar accepts, with the right head for each operator", floor=30)
-    for mod, name in pm.P_CLASSES:
-        if name in pm.NOT_FOR_WRITER:
-            continue
-        r = M.resolve("ode", mod, name)
-        key = f"writer::{name}"
-        if not r.is_gotranx:
-            v = pm.vetted("ode", r)
-            if v is None:
-                ctx.fail("R11.a", key, f"{name} is written by the inherited {r}, which has not been vetted", "")
-                continue
-            ctx.check(v.get("reparse", False), "R11.a", key, f"{r} (vetted: re-parsable)", f".ode writer: {name} falls through to the inherited {r}: {v.get('why', 'output is not accepted by ode.lark')}; a saved model cannot be loaded back (or loads as something else)", "")
-            if r.method == "_print_Function":
-                ctx.check(name in funcnames, "R11.a", key + "::function-name", f"`{name}(` is a grammar function", f"sympy prints {name} as `{name}(...)`, which is not among the grammar's function names {sorted(funcnames)}", "")
-            continue
-        frs = pm.fragments(r.func)
-        bad = sorted({h for fr in frs for h in heads(fr) if h not in vocab})
-        infix = [fr for fr in frs if re.search(r"(?<![=!<>])[<>]=?(?!=)|==|!=|&|\||~", fr) and not re.fullmatch(r"[<>=!]=?", fr.strip())]
-        ctx.check(not bad and not infix, "R11.a", key, f"{r}: emits only grammar heads", f".ode writer: {r} emits " + (f"heads {bad} that are not in the grammar" if bad else f"infix operators {infix}") + "; the saved file is rejected by the loader", r.func.where())
+    check_writer_rows(ctx, "R11.a")
     printers.check_no_unvetted_override(ctx, "R11.a", "ode", skip=pm.NOT_FOR_WRITER)
     # operator table
     check_relational(ctx, "R11.a")
@@ -424,3 +407,31 @@ def check_relational(ctx: Ctx, rule: str):
                 continue
             flat = _av11.flatten(t).replace(_av11.HO, "{").replace(_av11.HC, "}")
             ctx.check(flat == want, rule, key, f"`{op}` -> {want.split('(')[0]}(..)", f"_print_Relational writes `lhs {op} rhs` as `{flat[:90]}`, which the loader reads as another relation than {want.replace(L, 'lhs').replace(R, 'rhs')}", rel.where())
+
+
+def check_writer_rows(ctx: Ctx, rule: str, only: set | None = None):
+    """writer rows: every producible class is written by a vetted re-parsable inherited method or by a gotranx method
+    that only emits heads the grammar accepts"""
+    G = grammar(ctx)
+    M = printers.model(ctx)
+    funcnames = set(G.literals_of("funcname"))
+    logical = set(G.literals_of("logicalfuncname"))
+    vocab = funcnames | logical | {"ScalarParam"}
+    for mod, name in pm.P_CLASSES:
+        if name in pm.NOT_FOR_WRITER or (only is not None and name not in only):
+            continue
+        r = M.resolve("ode", mod, name)
+        key = f"writer::{name}"
+        if not r.is_gotranx:
+            v = pm.vetted("ode", r)
+            if v is None:
+                ctx.fail(rule, key, f"{name} is written by the inherited {r}, which has not been vetted", "")
+                continue
+            ctx.check(v.get("reparse", False), rule, key, f"{r} (vetted: re-parsable)", f".ode writer: {name} falls through to the inherited {r}: {v.get('why', 'output is not accepted by ode.lark')}; a saved model cannot be loaded back (or loads as something else)", "")
+            if r.method == "_print_Function":
+                ctx.check(name in funcnames, rule, key + "::function-name", f"`{name}(` is a grammar function", f"sympy prints {name} as `{name}(...)`, which is not among the grammar's function names {sorted(funcnames)}", "")
+            continue
+        frs = pm.fragments(r.func)
+        bad = sorted({h for fr in frs for h in heads(fr) if h not in vocab})
+        infix = [fr for fr in frs if re.search(r"(?<![=!<>])[<>]=?(?!=)|==|!=|&|\||~", fr) and not re.fullmatch(r"[<>=!]=?", fr.strip())]
+        ctx.check(not bad and not infix, rule, key, f"{r}: emits only grammar heads", f".ode writer: {r} emits " + (f"heads {bad} that are not in the grammar" if bad else f"infix operators {infix}") + "; the saved file is rejected by the loader", r.func.where())
